@@ -438,7 +438,7 @@ func c12Drive(fns []c11Fn) {
 	vp := f.VarParam()
 	nvar := 0
 	if vp != nil {
-		nvar = vChoice("nvar", 3+vTier())
+		nvar = vChoice("nvar", 3) // thorough tier: same counts, full menus at every position
 	}
 	var args []cty.Value
 	tags := []string{"a0", "a1", "a2", "a3", "a4"}
